@@ -319,7 +319,8 @@ def main(argv):
                 try:
                     def _still_fails(l):
                         fl_ = exec_lines(mod, [l], 1)[0]
-                        if 'EXC:' in fl_ and 'EXC:' not in v[1]:
+                        ex_ = [w for w in fl_.split() if w.startswith('EXC:')]
+                        if ex_ and ex_[0] not in v[1].split():
                             return False      # the shrunk line fails differently (e.g. it violates a precondition of the harness itself)
                         return judge([fl_])[0][0][1:2] == '0'
                     line = shr(line, _still_fails)
